@@ -124,6 +124,12 @@ def _element(eng, node_elts, gen, st, fid, seq, inner=None):
     for e in node_elts:
         outs = eng.eval(e, s_e, cf)
         outs = [o for o in outs]
+        if len(outs) == 1 and outs[0][0] == "raise" and cond is None and inner is None and len(node_elts) == 1 and not vals:
+            # the element expression raises for EVERY element (e.g. `e.id` over a list of strings): see listcomp; only when
+            # nothing was changed before the exception (the state reported with it is the one the comprehension started in)
+            s_r = outs[0][1]
+            if all(_same_heap(s_r, st, f) for f in s_r.heap) and not any(oid in st.objs and s_r.objs[oid] is not st.objs[oid] for oid in s_r.objs):
+                raise ElementAlwaysRaises(outs[0][2])
         if len(outs) != 1 or outs[0][0] != "ok":
             raise Unsupported("comprehension element forks or raises")
         _, s_e, v = outs[0]
@@ -137,6 +143,15 @@ def _element(eng, node_elts, gen, st, fid, seq, inner=None):
         if _consts_after(t, mark):
             raise Unsupported("comprehension element introduces index-dependent fresh constants")
     return i, cond, vals, extra
+
+
+class ElementAlwaysRaises(Unsupported):
+    """the single element expression of an unfiltered comprehension has exactly one outcome at an arbitrary index, and that outcome
+    is an exception (a subclass of Unsupported: consumers that do not handle it stay undecided, as before)"""
+
+    def __init__(self, exc):
+        Unsupported.__init__(self, "comprehension element forks or raises")
+        self.exc = exc
 
 
 def _same_heap(s1, s0, f):
@@ -236,7 +251,9 @@ def genexp(eng, node, st, fid):
         try:
             i, cond, vals, extra = _element(eng, [node.elt], gen, s, fid, seq)
         except Unsupported:
-            if seq.known_len is not None and seq.known_len <= 6 and seq.tag == "tuple":
+            # a contract may raise the arity limit for ITS function (`con.genexp_unroll = 8`: the constant tables of
+            # cobra.medium.annotations have up to 8 entries); every other contract keeps the limit 6
+            if seq.known_len is not None and seq.known_len <= getattr(eng.cur_contract, "genexp_unroll", 6) and seq.tag == "tuple":
                 # (f(b) for b in <tuple of fixed arity>), e.g. max(abs(b) for b in r.bounds): a tuple cannot be indexed
                 # symbolically; the elements are evaluated one by one, in order, and handed on as a tuple (the consumers
                 # min / max / sum / tuple() / a for loop read all of them at once anyway)
@@ -253,7 +270,19 @@ def listcomp(eng, node, st, fid):
     def mk(s, seq):
         if seq.known_len is not None and seq.known_len <= 6:
             return _unrolled_list(eng, node, gen, s, fid, seq)
-        i, cond, vals, extra = _element(eng, [node.elt], gen, s, fid, seq)
+        try:
+            i, cond, vals, extra = _element(eng, [node.elt], gen, s, fid, seq)
+        except ElementAlwaysRaises as ear:
+            # [f(e) for e in xs] where f(e) raises the same exception for every e: the comprehension raises it when xs is not empty
+            # (at its first element, before anything is built) and is the empty list otherwise
+            res = []
+            for nonempty, s2 in eng.branch(s, seq.n > 0):
+                if nonempty:
+                    res.append(("raise", s2, ear.exc))
+                else:
+                    s3, l = alloc_list(s2, "int", length=z3.IntVal(0))
+                    res.append(("ok", s3.updobj(l.oid, untyped=True), l))
+            return res
         s = _with_extras(s, seq, i, cond, extra)
         return gen_to_list(eng, s, VGen(seq, i, cond, vals[0]))
     return eng.bind(_source_seq(eng, st, fid, gen), mk)
@@ -299,14 +328,20 @@ def gen_to_seq(eng, st, g):
     dst = fresh("flt_dst", z3.ArraySort(I, I))
     j, i = z3.Const(fresh_name("j"), I), z3.Const(fresh_name("i"), I)
     n = seq.n
-    ax = [
-        m >= 0, m <= n,
-        FA([j], z3.Implies(z3.And(0 <= j, j < m),
-                                  z3.And(0 <= src[j], src[j] < n, g.cond_at(src[j]), dst[src[j]] == j)), patterns=[src[j]]),
-        FA([j], z3.Implies(z3.And(0 <= j, j + 1 < m), src[j] < src[j + 1]), patterns=[src[j + 1]]),
-        FA([i], z3.Implies(z3.And(0 <= i, i < n, g.cond_at(i)), z3.And(0 <= dst[i], dst[i] < m, src[dst[i]] == i)),
-                  patterns=[dst[i]]),
-    ]
+    c0, c1 = m >= 0, m <= n
+    a1 = FA([j], z3.Implies(z3.And(0 <= j, j < m),
+                            z3.And(0 <= src[j], src[j] < n, g.cond_at(src[j]), dst[src[j]] == j)), patterns=[src[j]])
+    mono = FA([j], z3.Implies(z3.And(0 <= j, j + 1 < m), src[j] < src[j + 1]), patterns=[src[j + 1]])
+    a3 = FA([i], z3.Implies(z3.And(0 <= i, i < n, g.cond_at(i)), z3.And(0 <= dst[i], dst[i] < m, src[dst[i]] == i)),
+            patterns=[dst[i]])
+    h = eng.hooks.get("filter_monotone")
+    if h:
+        # a contract module may state the SAME fact (the kept positions are increasing) in another form, e.g. over two variables
+        # (no `j + 1` trigger: that one re-fires on the terms it creates), or leave it out (assuming less is sound)
+        r = h(eng, st, src, m)
+        if r is not None:
+            mono = r
+    ax = [c0, c1, a1, mono, a3]
     st = st.assume(*ax)
     out = VSeq(m, lambda s, jj: g.elt_at(z3.Select(src, jj)), known_len=None, tag="filter", src=seq.src)
     out.flt = (src, dst, g)        # ghost maps, for the coverage fact of lists built from a filtered set iteration
@@ -413,7 +448,24 @@ def any_all(eng, st, it, is_any):
     raise Unsupported("any/all over a symbolic non-generator")
 
 
+def _setcomp_flat1(eng, node, st, fid):
+    """{elt for x in xs for y in <1-tuple expression of x>}: the inner iterable is a tuple of arity ONE, so the flattening has exactly
+    one element per outer element (VGenFlat with a single part); other arities stay unsupported"""
+    g0, g1 = node.generators
+
+    def mk(s, seq):
+        box = {}
+        i, cond, vals, extra = _element(eng, [node.elt], g0, s, fid, seq, inner=(g1, 0, box))
+        if box.get("arity") != 1:
+            raise Unsupported("two-generator set comprehension whose inner iterable is not a 1-tuple")
+        s = _with_extras(s, seq, i, cond, extra)
+        return set_of_gen(eng, s, VGen(seq, i, cond, vals[0]))
+    return eng.bind(_source_seq(eng, st, fid, g0), mk)
+
+
 def setcomp(eng, node, st, fid):
+    if len(node.generators) == 2 and not any(g.is_async for g in node.generators):
+        return _setcomp_flat1(eng, node, st, fid)
     gen = _single_gen(node)
 
     def mk(s, seq):
